@@ -4,3 +4,4 @@ import DM.Props.C07
 import DM.Props.C08
 import DM.Props.C17
 import DM.Props.C15
+import DM.Props.C05
